@@ -800,7 +800,7 @@ fn compact(text: &str) -> String { serde_json::from_str::<Value>(text).map(|v| v
 impl Prop for SolvedProp {
     type Case = SolvedCase;
     fn name(&self) -> &'static str { "rt_solved_init" }
-    fn strategy(&self, tier: Tier) -> BoxedStrategy<SolvedCase> { (problem_spec(tier.pick(10, 20)), 0u8..4).prop_map(|(spec, config)| SolvedCase { spec, config }).boxed() }
+    fn strategy(&self, tier: Tier) -> BoxedStrategy<SolvedCase> { (problem_spec(tier.pick(10, 20)), 0u8..4).prop_map(|(mut spec, config)| { /* docs: 'use tag property on each job place if you want to use initial solution' */ spec.features &= !F_UNTAGGED; SolvedCase { spec, config } }).boxed() }
     fn cases(&self, tier: Tier) -> u32 { tier.pick(2_400, 60_000) }
     fn shards(&self, _tier: Tier) -> u32 { 16 }
     fn max_shrink_iters(&self) -> u32 { 300 }
